@@ -53,23 +53,31 @@ func VerifC11_AMPEndpoint() {
 	data := verifapi.Bytes("poll", verifapi.Param("dlen", 3))
 	n := verifapi.Concrete(len(data))
 	data = data[:n]
-	path := "/amp/client/" + amp.EncodePath(data)
-	bad := verifapi.Bool("undecodable")
-	if bad {
-		path = "/amp/client/0nodata"
+	// what follows the routing prefix: an encoded poll, possibly preceded by stray bytes (extra
+	// slashes, a repeated prefix, anything), or something without a data segment
+	junk := verifapi.String("junk", 2)
+	rest := junk + amp.EncodePath(data)
+	if verifapi.Bool("undecodable") {
+		rest = "0nodata"
 	}
+	// reference: the path codec applied to exactly the bytes after the prefix (the codec itself
+	// is decided by the path-* jobs)
+	want, werr := amp.DecodePath(rest)
 	w := &verifRecorder{hdr: http.Header{}}
-	ampClientOffers(i, w, verifRequest("GET", path))
-	if bad {
+	ampClientOffers(i, w, verifRequest("GET", "/amp/client/"+rest))
+	if werr != nil {
 		verifapi.Cover("amp endpoint: undecodable path")
 		verifapi.Assert(verifCOCalls == 0, "an undecodable path never reaches the matching logic")
 		verifapi.Assert(string(verifArmored) == "ERR:cannot decode URL path", "an undecodable path is answered with the armored error response")
 		return
 	}
+	if len(junk) == 0 {
+		verifapi.Assert(len(want) == n, "a well-formed path decodes to the poll")
+	}
 	verifapi.Assert(verifCOCalls == 1, "the poll is handed to ClientOffers once")
-	verifapi.Assert(len(verifGotBody) == n, "the poll handed to ClientOffers is the decoded URL path")
-	for k := 0; k < n; k++ {
-		verifapi.Assert(verifGotBody[k] == data[k], "the poll handed to ClientOffers is the decoded URL path")
+	verifapi.Assert(len(verifGotBody) == len(want), "the poll handed to ClientOffers is the decoding of exactly what follows the routing prefix")
+	for k := 0; k < len(want) && k < 8; k++ {
+		verifapi.Assert(verifGotBody[k] == want[k], "the poll handed to ClientOffers is the decoding of exactly what follows the routing prefix")
 	}
 	if verifCOFails {
 		verifapi.Cover("amp endpoint: internal error")
